@@ -696,6 +696,8 @@ def _fault_for(mode, info):
 
 
 SINK = None      # in-process observers set this to a list
+GATE = None      # in-process schedulers set this to a callable(info): called before a sign / verify / encrypt / decrypt run,
+                 # may block (the deterministic interleaving of concurrent operations uses tool runs as scheduling points)
 
 
 def _log(info):
@@ -732,6 +734,8 @@ def run(argv):
     if args.mode == 'list-transforms':
         return 0, ('Registered transform klasses:\n' +
                    ','.join('"%s"' % t for t in TRANSFORM_NAMES) + '\n').encode(), b''
+    if GATE is not None:
+        GATE(info)
     fault = _fault_for(args.mode, info)
     info['fault'] = fault
     rc, out, err, output = 0, b'', b'', None
